@@ -1,4 +1,5 @@
 import CnlProofs.Rounding
+import CnlModel.Layered
 /-!
 # C08 — integer division under a rounding mode returns the correctly rounded quotient
 
@@ -19,6 +20,9 @@ rational `a / b` rounded as `m` prescribes; `IsRounded m a b q` characterises it
 * `div_correct_same_type` — the special case of two operands of one type.
 * `other_ops_builtin`, `native_div` — every other operator under a rounding tag, and `/` under the
   native tag, is the operator of the representation.
+* `compound_div_correct` — compound assignment `a /= b` (`a = static_cast<A>(a / b)`, the expression of the
+  driver's `asg` lines): under the hypotheses of `div_correct`, `a` stores the correctly rounded quotient
+  converted to its own representation type, `L.wrap (roundDiv mode a b)` — the quotient itself when it fits `L`.
 
 `L.InRange a`, `R.InRange b` say that the operands are values of their types; `T.InRange a`,
 `T.InRange b` that the usual arithmetic conversions keep their values (they change a value only when a
@@ -65,7 +69,43 @@ theorem other_ops_builtin (R : RepOps) (mode : RdMode) (op : BinOp) (x y : Num) 
 theorem native_div (R : RepOps) (x y : Num) : Rounding.binOp R .nat .div x y = R.bin .div x y :=
   binOp_native_div R x y
 
+/-- the layered dispatch of two `rounding_integer`s of one tag over built-in representations is
+`Rounding.binOp` on the representations, re-wrapped -/
+theorem layered_bin_rounding (op : BinOp) (mode : RdMode) (L R : IntTy) (a b : Int)
+    (hop : op ≠ .shl ∧ op ≠ .shr) :
+    Layered.bin op (.rd (.int L) mode, a) (.rd (.int R) mode, b)
+      = (Rounding.binOp intOps mode op (.int L, a) (.int R, b)).map (fun r => (.rd r.1 mode, r.2)) := by
+  cases op <;> simp [Layered.bin, Layered.level, Ty.depth, Layered.ops, Layered.binWith, Layered.balance,
+    Layered.binHeads] at hop ⊢
+
+/-- **compound assignment** `a /= b` for `a : rounding_integer<L, mode>`, `b : rounding_integer<R, mode>`:
+`a = static_cast<A>(a / b)` — the tagged division in the layered model, then the conversion of the quotient's
+representation back to `L` (verbatim the expression the driver evaluates for `C08 asg div …` lines).  Under
+the hypotheses of `div_correct` it is defined and `a` stores `L.wrap` of the correctly rounded quotient, hence
+the quotient itself when it is a value of `L`. -/
+theorem compound_div_correct (mode : RdMode) (L R : IntTy) (hL : 1 ≤ L.bits) (hR : 1 ≤ R.bits) (a b : Int)
+    (haL : L.InRange a) (hbR : R.InRange b)
+    (haT : (usualArith L R).InRange a) (hbT : (usualArith L R).InRange b) (hb0 : b ≠ 0)
+    (hq : (usualArith L R).InRange (roundDiv (modeOf mode) a b)) :
+    (Layered.bin .div (.rd (.int L) mode, a) (.rd (.int R) mode, b) >>= fun w =>
+        match w.1 with
+        | .rd (.int T) _ => pure (Ty.rd (.int L) mode, (convert L (T, w.2)).2)
+        | _ => (.ill "unexpected result type" : Res Num))
+      = .ok (.rd (.int L) mode, L.wrap (roundDiv (modeOf mode) a b))
+    ∧ (L.InRange (roundDiv (modeOf mode) a b) → L.wrap (roundDiv (modeOf mode) a b) = roundDiv (modeOf mode) a b) := by
+  refine ⟨?_, fun h => IntTy.wrap_id hL h⟩
+  rw [layered_bin_rounding .div mode L R a b (by decide), div_correct mode L R hL hR a b haL hbR haT hbT hb0 hq]
+  rfl
+
 /-! ## non-vacuity: evaluations at the type limits, and satisfiable hypotheses -/
+
+-- `a /= b`, nearest: i8 -128 /= i64 3 → quotient -43 (in `i64`) stored in the `i8`; u8 200 /= i8 -1 stores -200 mod 256
+example : (Layered.bin .div (.rd (.int i8) .nrst, -128) (.rd (.int i64) .nrst, 3) >>= fun w =>
+        match w.1 with
+        | .rd (.int T) _ => pure (Ty.rd (.int i8) .nrst, (convert i8 (T, w.2)).2)
+        | _ => (.ill "unexpected result type" : Res Num)) = .ok (.rd (.int i8) .nrst, -43) := by decide +kernel
+example : u8.wrap (roundDiv (modeOf .nrst) 200 (-1)) = 56 ∧ (usualArith u8 i8).InRange (roundDiv (modeOf .nrst) 200 (-1)) := by
+  decide
 
 -- nearest: the bias `lhs + rhs/2` of the unrepaired formula would overflow here
 example : Rounding.binOp intOps .nrst .div (.int i32, 2147483647) (.int i32, 2) = .ok (.int i32, 1073741824) := by decide +kernel
